@@ -239,6 +239,16 @@ def run(ck, m):
         eff = [c for c in body_walk(fn) if isinstance(c, ast.Call) and first_effect in norm(c.func)]
         ck.ob("R6", fn, bool(r) and bool(eff) and r[0].lineno < eff[0].lineno, f"{q}: unknown fields must be rejected before the new object is built", stmt=f"{q}: unknown fields rejected first")
 
+    # the metaclass collects defaults / data namespaces from EVERY render class in the MRO: the walk may skip, never stop
+    for rel_, q_, fn_ in m.functions():
+        if not (q_.startswith("RenderableMeta.") or q_.startswith("RenderArgs.") or q_.startswith("RenderData.")):
+            continue
+        for lp in body_walk(fn_):
+            if isinstance(lp, ast.For) and ("__mro__" in norm(lp.iter) or "mro()" in norm(lp.iter)):
+                brk = [b_ for b_ in walk_local(lp) if isinstance(b_, (ast.Break, ast.Return))]
+                ck.ob("R2", lp, not brk, f"{q_}: the walk over the MRO can stop early (`{short(brk[0], 30) if brk else ''}`): render classes that follow a non-render class (a mixin, Generic[...]) in the MRO "
+                      "would contribute no default / data namespaces", stmt=f"{q_}: MRO walk visits every class")
+
     from rules.common import rule_memo_safety
     rule_memo_safety(ck, m, "MEMO", "C16")
 
